@@ -65,7 +65,8 @@ def _memo(fn):
 class Arr:
     __array_priority__ = 1000
 
-    def __init__(self, shape, fn, dtype="real", kind="numpy", mask=None, chunks=None):
+    def __init__(self, shape, fn, dtype="real", kind="numpy", mask=None, chunks=None, origin=frozenset()):
+        self.origin = frozenset(origin)   # memory regions this array may alias (empty = fresh)
         self.shape = tuple(P(d) for d in shape)
         self.fn = _memo(fn) if fn is not None and not getattr(fn, "_memo", False) else fn
         self.dtype = dtype
@@ -116,21 +117,25 @@ class Arr:
         return None
 
     def generic(self, prefix="j"):
-        idx = [T.fresh(prefix) for _ in self.shape]
+        idx = [T.generic_index(d, prefix) for d in self.shape]
         return idx, self.fn(*idx)
 
     def copy(self):
         return Arr(self.shape, self.fn, self.dtype, self.kind, self.mask, self.chunks)
 
+    def view(self):
+        return Arr(self.shape, self.fn, self.dtype, self.kind, self.mask, self.chunks, self.origin)
+
     def astype(self, t):
         return self.copy()
 
     def flatten(self):
-        if self.ndim == 1:
-            return self.copy()
-        raise ModelError("flatten of %d-d array (product axes not modelled)" % self.ndim)
+        r = reshape(self, (-1,))
+        r.origin = frozenset()
+        return r
 
-    ravel = flatten
+    def ravel(self):
+        return reshape(self, (-1,))
 
     # -------------------------------------------------------------- arithmetic
     def __add__(self, o):
@@ -255,7 +260,7 @@ class Arr:
         mask = None
         if self.mask is not None:
             mask = (axes.index(self.mask[0]), self.mask[1], self.mask[2])
-        return Arr(shape, fn, self.dtype, self.kind, mask)
+        return Arr(shape, fn, self.dtype, self.kind, mask, origin=self.origin)
 
     def swapaxes(self, a, b):
         ax = list(range(self.ndim))
@@ -432,8 +437,8 @@ def reduce_arr(a, how, axis, keepdims):
                 return t
             if how in ("sum", "mean"):
                 if src.dtype == "bool":
-                    return T.Sum(bnd, lambda kv: T.mk_ind(C(inner_raw(full, ax, kv))))
-                return T.Sum(bnd, inner)
+                    return T.sum_over(bnd, lambda kv: T.mk_ind(C(inner_raw(full, ax, kv))))
+                return T.sum_over(bnd, inner)
             return T.Red(how, bnd, inner)
 
         def inner_raw(full, ax, kv):
@@ -551,7 +556,8 @@ def getitem(a, key):
         pass
     if not shape:
         return fn()
-    return Arr(tuple(shape), fn, a.dtype, a.kind, mask)
+    basic = not any(isinstance(k, (Arr, IndexSet)) for k in key)
+    return Arr(tuple(shape), fn, a.dtype, a.kind, mask, origin=a.origin if basic else frozenset())
 
 
 def setitem(a, key, val):
@@ -561,7 +567,7 @@ def setitem(a, key, val):
         if isinstance(val, Arr):
             raise ModelError("masked store of an array")
         v = P(val)
-        return Arr(a.shape, lambda *idx: T.mk_ite(C(kk.fn(*idx)), v, a.fn(*idx)), a.dtype, a.kind, a.mask)
+        return Arr(a.shape, lambda *idx: T.mk_ite(C(kk.fn(*idx)), v, a.fn(*idx)), a.dtype, a.kind, a.mask, origin=a.origin)
     if not isinstance(key, tuple):
         key = (key,)
     if any(k is Ellipsis or k is None for k in key):
@@ -608,7 +614,7 @@ def setitem(a, key, val):
         new = vfn(sub)
         # old + [cond](new-old): additive form so that the loop rules see deltas
         return old + T.mk_ind(cond) * (new - old)
-    return Arr(a.shape, fn, a.dtype, a.kind, a.mask)
+    return Arr(a.shape, fn, a.dtype, a.kind, a.mask, origin=a.origin)
 
 
 # ------------------------------------------------------------------ linear algebra
@@ -650,7 +656,7 @@ def matmul(a, b):
             if wa is not None:
                 t = wa[1](k) * t
             return t
-        return T.Sum(bound, term)
+        return T.sum_over(bound, term)
     r = Arr(shape, fn, "real", "dask" if "dask" in (a.kind, b.kind) else "numpy")
     # masks on non-contracted axes are not supported
     for M, axc in ((A, A.ndim - 1), (B, B.ndim - 2)):
@@ -749,13 +755,51 @@ def reshape(a, shape):
             for sp, dp in zip(src_pos, dst_pos):
                 full[sp] = idx[dp]
             return a.fn(*full)
-        return Arr(tuple(shape), fn, a.dtype, a.kind)
-    raise ModelError("general reshape %r -> %r" % (a.shape, tuple(shape)))
+        return Arr(tuple(shape), fn, a.dtype, a.kind, origin=a.origin)
+    # general row-major reshape through the flat index (compound axes decompose when the
+    # index variables carry their bounds)
+    if a.mask is not None:
+        raise ModelError("reshape of a selection")
+    if not T.equal(a.size, _prod(shape)):
+        raise ShapeError("cannot reshape array of size %r into shape %r" % (a.size, tuple(shape)))
+    old_strides = _strides(a.shape)
+    new_strides = _strides(shape)
+
+    def fn(*idx):
+        flat = ZERO
+        for i, st in zip(idx, new_strides):
+            flat = flat + P(i) * st
+        full = []
+        for k, (d, st) in enumerate(zip(a.shape, old_strides)):
+            j = T.mk_floordiv(flat, st) if not (st == ONE) else flat
+            if k > 0:
+                j = T.mk_mod(j, d)
+            full.append(j)
+        return a.fn(*full)
+    return Arr(tuple(shape), fn, a.dtype, a.kind, origin=a.origin)
+
+
+def _prod(dims):
+    r = ONE
+    for d in dims:
+        r = r * P(d)
+    return r
+
+
+def _strides(shape):
+    out = []
+    acc = ONE
+    for d in reversed(list(shape)):
+        out.append(acc)
+        acc = acc * P(d)
+    return list(reversed(out))
 
 
 def repeat(a, n, axis=None):
     if axis is None:
-        raise ModelError("repeat without axis (product axes not modelled)")
+        flat = reshape(a, (-1,)) if a.ndim != 1 else a
+        n = P(n)
+        return Arr((flat.shape[0] * n,), lambda i: flat.fn(T.mk_floordiv(i, n)), a.dtype, a.kind)
     axis = axis % a.ndim
     if not is_one(a.shape[axis]):
         raise ModelError("repeat of a non-unit axis")
@@ -820,7 +864,7 @@ def eye(n, m=None):
 
 def input_arr(name, shape, kind="numpy", dtype="real", chunks=None):
     sort = "int" if dtype == "int" else "real"
-    return Arr(tuple(shape), lambda *idx: T.app(name, *idx, sort=sort), dtype, kind, None, chunks)
+    return Arr(tuple(shape), lambda *idx: T.app(name, *idx, sort=sort), dtype, kind, None, chunks, origin={name})
 
 
 def arr_equal(a, b):
